@@ -187,12 +187,16 @@ func (l *listener) Acceptor() transport.Acceptor {
 
 // Close listener
 func (l *listener) Close() error {
-	l.bs.removeListener(l.url)
-
 	l.mutex.Lock()
+	already := l.closed
 	l.closed = true
 	acceptor := l.acceptor
 	l.mutex.Unlock()
+
+	// only the first Close unregisters the url: by now it may belong to a newer listener.
+	if !already {
+		l.bs.removeListener(l.url)
+	}
 
 	if acceptor != nil {
 		return acceptor.Close()
